@@ -181,6 +181,29 @@ Proof.
   intros n s Hn Hs. specialize (Hpos n s Hn Hs). lra.
 Qed.
 
+(* ... and approximate sub-solutions lie below it up to tau/(1-c) *)
+Theorem op_subsolution_slack V Vs tau :
+  opfix Vs -> 0 <= tau ->
+  (forall n s, (n < N)%nat -> (s < S)%nat -> V n s <= B V n s + tau) ->
+  forall n s, (n < N)%nat -> (s < S)%nat -> V n s <= Vs n s + tau / (1 - c).
+Proof.
+  intros Hfix Ht Hsub.
+  set (k := tau / (1 - c)).
+  assert (Hk0 : 0 <= k).
+  { unfold k. apply Rmult_le_pos; [lra|]. left. apply Rinv_0_lt_compat. lra. }
+  assert (Hk : (1 - c) * k = tau) by (unfold k; field; lra).
+  set (U := fun n s => V n s - k).
+  assert (HU : forall n s, (n < N)%nat -> (s < S)%nat -> U n s <= B U n s).
+  { intros n s Hn Hs.
+    assert (Hc : Rabs (B V n s - B U n s) <= c * k).
+    { apply Bcontr; auto. intros n' s' _ _. unfold U.
+      replace (V n' s' - (V n' s' - k)) with k by lra. rewrite Rabs_right; lra. }
+    apply Rabs_le_inv' in Hc. specialize (Hsub n s Hn Hs). change (V n s - k <= B U n s).
+    assert (Hk' : c * k = k - tau) by (rewrite <- Hk; ring). lra. }
+  intros n s Hn Hs. pose proof (op_subsolution_lower U Vs Hfix HU n s Hn Hs) as H.
+  unfold U in H. lra.
+Qed.
+
 End Op2.
 
 (* ================================================================== *)
@@ -823,6 +846,39 @@ Proof.
     + rewrite run_step_chain. apply Hfeas; auto.
     + rewrite HN in Hn. destruct (Hrows n Hn Hne) as [Hpi Hom].
       rewrite (run_step_rows p f f' msk V n s HN Hpi Hom). rewrite <- (HV n s Hn Hs). lra.
+Qed.
+
+(* the same from what is actually recorded: V evaluates f up to residual delta, the accepted
+   row satisfies the constraint up to tau; V' is the exact evaluation of the new controller *)
+Theorem bpi_feasible_improves_approx (p : pomdp R) (f f' : fsc R) msk V V' i0 delta tau :
+  wfp p -> pgamma p < 1 -> wff p f' -> fN f' = fN f ->
+  (forall n, (n < fN f)%nat -> n <> i0 ->
+     (forall a, (a < pA p)%nat -> fpi f' n a = fpi f n a) /\
+     (forall a o m, (a < pA p)%nat -> (o < pO p)%nat -> (m < fN f)%nat -> fom f' n a o m = fom f n a o m)) ->
+  0 <= delta -> 0 <= tau ->
+  syst p f msk delta V -> syst p f' msk 0 V' ->
+  (forall s, (s < pS p)%nat -> V i0 s <= chain_backup p f' msk V i0 s + tau) ->
+  forall n s, (n < fN f)%nat -> (s < pS p)%nat ->
+    V n s <= V' n s + Rmax delta tau / (1 - pgamma p).
+Proof.
+  intros Wp G1 Wf' HN Hrows Hd Ht HV HV' Hfeas n s Hn Hs.
+  pose proof (wp_g0 _ Wp) as G0.
+  assert (C0 : 0 <= pgamma p * 1 * 1) by lra.
+  assert (C1 : pgamma p * 1 * 1 < 1) by lra.
+  apply syst0_fix in HV'.
+  rewrite <- HN in Hn.
+  replace (1 - pgamma p) with (1 - pgamma p * 1 * 1) by ring.
+  revert n s Hn Hs.
+  eapply op_subsolution_slack with (B := run_step p f' msk) (c := pgamma p * 1 * 1);
+    try exact C0; try exact C1; try exact HV'.
+  - apply run_step_Bcontr; auto using wff_bfsc.
+  - intros U W H n s Hn Hs. apply run_step_mono; auto.
+  - eapply Rle_trans; [exact Hd|apply Rmax_l].
+  - intros n s Hn Hs. destruct (Nat.eq_dec n i0) as [->|Hne].
+    + rewrite run_step_chain. specialize (Hfeas s Hs). pose proof (Rmax_r delta tau). lra.
+    + rewrite HN in Hn. destruct (Hrows n Hn Hne) as [Hpi Hom].
+      rewrite (run_step_rows p f f' msk V n s HN Hpi Hom). rewrite run_step_chain.
+      specialize (HV n s Hn Hs). apply Rabs_le_inv' in HV. pose proof (Rmax_l delta tau). lra.
 Qed.
 
 (* adding an escape node (no old node moves to it) leaves the old nodes' values unchanged *)
